@@ -715,6 +715,18 @@ def rule_N2(ctx):
                     key = {k.arg: k.value for k in v.keywords}.get("key")
                     if key is None or (isinstance(key, ast.Lambda) and "[0]" in unparse(key.body)):
                         continue
+                    if isinstance(key, ast.Name):
+                        # a named key function of the module that returns element 0
+                        kf = m.module.functions.get(key.id)
+                        body_ = [b for b in kf.node.body if not (isinstance(b, ast.Expr) and isinstance(
+                            b.value, ast.Constant))] if kf is not None else []
+                        if len(body_) == 1 and isinstance(body_[0], ast.Return) and \
+                                body_[0].value is not None and unparse(body_[0].value).endswith("[0]"):
+                            continue
+                    if isinstance(key, ast.Call) and unparse(key.func) in (
+                            "operator.itemgetter", "itemgetter") and key.args and isinstance(
+                                key.args[0], ast.Constant) and key.args[0].value == 0:
+                        continue
                     ok, why = False, "sorted by %s, which is not the task name" % unparse(key)
                     continue
                 ok, why = False, "returns %s in declaration order" % norm_src(v)
